@@ -133,19 +133,18 @@ structure SwapPost (m : Mgr) (ext : Nat → Nat) (x : Nat) (r : Nat × Nat) (m' 
   ctx : m'.ctx = m.ctx
   cacheEmpty : m'.cache = {}
 
-theorem swapBody_spec (m : Mgr) (ext : Nat → Nat) (hI : Inv m) (hV : OrderOK m.tbl)
-    (hR : RefExact m ext) (hoff : m.ctx = false ∨ m.lastLen = none) (x : Nat) (hx : x + 1 < m.nvars) :
-    OkOrSched (SwapPost m ext x) (swapBody x (x + 1) m) := by
-  unfold swapBody
-  rw [M.bind_ok (M.get_eq m)]
-  refine OkOrSched.bind (takeSwapOrders_spec x (x + 1) m) ?_
-  rintro ⟨ox, oy⟩ m1 ⟨⟨s, rfl⟩, hox, hoy⟩
+/-- the swap for FIXED iteration orders of the two levels: always returns normally -/
+theorem swapWith_spec (m : Mgr) (ext : Nat → Nat) (s : List SchedItem) (hI : Inv m) (hV : OrderOK m.tbl)
+    (hR : RefExact m ext) (hoff : m.ctx = false ∨ m.lastLen = none) (x : Nat) (hx : x + 1 < m.nvars)
+    (ox oy : List Nat) (hox : LevelOrder m.tbl x ox) (hoy : LevelOrder m.tbl (x + 1) oy) :
+    ∃ r m', swapWith x (x + 1) m.len ox oy { m with sched := s } = (.ok r, m') ∧
+      SwapPost m ext x r m' ∧ m'.sched = s := by
+  unfold swapWith
   -- the state with the schedule consumed
   have hI1 : Inv { m with sched := s } := hI.setSched s
   have hR1 : RefExact { m with sched := s } ext := hR.congr rfl rfl
   obtain ⟨g, xf, m5, m6, hrun, hex, _, _, _, hP⟩ :=
     swapPre_spec { m with sched := s } hI1 hV hoff x hx ox oy hox hoy
-  simp only
   rw [M.bind_ok hrun]
   simp only
   rw [M.bind_ok hex]
@@ -207,7 +206,8 @@ theorem swapBody_spec (m : Mgr) (ext : Nat → Nat) (hI : Inv m) (hV : OrderOK m
   have hl7 : m7.tbl.l2v = m6.tbl.l2v := hG.sub.l2v
   have hn7 : m7.tbl.nvars = m6.tbl.nvars := by show m7.tbl.vars.size = _; rw [hv7]; rfl
   have hO6 := hP.varsOK
-  refine ⟨hI7, ?_, hG.refExact, ⟨?_, ?_, ?_⟩, ?_, ?_, rfl, ?_, ?_, hG.cacheEmpty⟩
+  refine ⟨_, m7, rfl, ⟨hI7, ?_, hG.refExact, ⟨?_, ?_, ?_⟩, ?_, ?_, rfl, ?_, ?_, hG.cacheEmpty⟩,
+    hG.sub.sched.trans hP.sched⟩
   · exact ⟨fun v i => by rw [hv7, hl7]; exact hO6.inv v i, fun v i => by rw [hv7, hn7]; exact hO6.lt v i,
       fun i => by rw [hn7, hl7]; exact hO6.total i⟩
   · intro j; rw [hl7]; exact hP.exch.l2v j
@@ -227,5 +227,36 @@ theorem swapBody_spec (m : Mgr) (ext : Nat → Nat) (hI : Inv m) (hV : OrderOK m
     exact ⟨h0, h7⟩
   · exact hG.sub.lastLen.trans hP.lastLen
   · exact hG.sub.ctx.trans hP.ctx
+
+/-- **`swap` on two adjacent levels, for every schedule**: the call returns normally with `SwapPost`
+(the only other outcome is the model's report that the recorded schedule does not fit) -/
+theorem swapBody_spec (m : Mgr) (ext : Nat → Nat) (hI : Inv m) (hV : OrderOK m.tbl)
+    (hR : RefExact m ext) (hoff : m.ctx = false ∨ m.lastLen = none) (x : Nat) (hx : x + 1 < m.nvars) :
+    OkOrSched (SwapPost m ext x) (swapBody x (x + 1) m) := by
+  unfold swapBody
+  rw [M.bind_ok (M.get_eq m)]
+  refine OkOrSched.bind (takeSwapOrders_spec x (x + 1) m) ?_
+  rintro ⟨ox, oy⟩ m1 ⟨⟨s, rfl⟩, hox, hoy⟩
+  obtain ⟨r, m', hrun, hp, _⟩ := swapWith_spec m ext s hI hV hR hoff x hx ox oy hox hoy
+  simp only
+  rw [hrun]
+  exact hp
+
+/-- with no recorded schedule (the model then iterates in ascending order) the call cannot fail -/
+theorem swapBody_total (m : Mgr) (ext : Nat → Nat) (hI : Inv m) (hV : OrderOK m.tbl)
+    (hR : RefExact m ext) (hoff : m.ctx = false ∨ m.lastLen = none) (x : Nat) (hx : x + 1 < m.nvars)
+    (hs : m.sched = []) :
+    ∃ r m', swapBody x (x + 1) m = (.ok r, m') ∧ SwapPost m ext x r m' ∧ m'.sched = [] := by
+  have ht : takeSwapOrders x (x + 1) m = (.ok (nodesAt m.tbl x, nodesAt m.tbl (x + 1)), m) := by
+    unfold takeSwapOrders
+    simp only [M.bind_eq, M.get_eq, hs, M.pure_eq]
+  obtain ⟨r, m', hrun, hp, hs'⟩ := swapWith_spec m ext [] hI hV hR hoff x hx _ _
+    (LevelOrder.default m.tbl x) (LevelOrder.default m.tbl (x + 1))
+  have hm : ({ m with sched := [] } : Mgr) = m := by rw [← hs]
+  rw [hm] at hrun
+  refine ⟨r, m', ?_, hp, hs'⟩
+  unfold swapBody
+  rw [M.bind_ok (M.get_eq m), M.bind_ok ht]
+  exact hrun
 
 end DD
